@@ -44,6 +44,10 @@ LEVEL_NOTE = ('Trusted: Coq kernel, the hand-written model (validated differenti
 logging.disable(logging.CRITICAL)
 
 IMPORTS = ['Grist.Model.RefIndex']
+# Which model of BaseColumn.clear the correspondence uses: 'false' = the code as it is (clear keeps the relation:
+# known finding C10-clear-keeps-reverse-index), 'true' = after notes/proposed_fixes/C10-clear-resets-relation.diff
+# (then inverse_map_exact_with_fixed_clear is the theorem that applies, and the known-finding entry goes away).
+CLEAR_FIXED = 'false'
 
 
 def K():
@@ -78,7 +82,7 @@ def ops_cases(ctx):
     ctx.count(('ops', kind, repr(ops)), nontrivial=nontrivial, kind='ops:%s:%s' % (kind, status),
               sample={'kind': kind, 'ops': repr(ops)[:300]} if i < 2 else None)
   check = ('fun c => match c with (k, tbl, ops, expected) => '
-           'res_eqb col_eqb (run (hack_of tbl) k ops) expected end')
+           'res_eqb col_eqb (run_from (hack_of tbl) %s (col_new k) ops) expected end' % CLEAR_FIXED)
   bad = ctx.run_cases('ops', IMPORTS, check, cases, shard=100)
   for i in bad[:5]:
     ctx.broken('correspondence:RefIndex.run differs from the real column on an op sequence',
@@ -320,7 +324,7 @@ def correspond(ctx):
   for term, what, nontrivial, n in traces:
     ctx.count(('trace', what), nontrivial=nontrivial, kind='trace:calls<=%d' % (10 if n <= 10 else 50 if n <= 50 else 500))
   check = ('fun c => match c with (k, tbl, ops, expected) => '
-           'res_eqb col_eqb (run (hack_of tbl) k ops) (Ok expected) end')
+           'res_eqb col_eqb (run_from (hack_of tbl) %s (col_new k) ops) (Ok expected) end' % CLEAR_FIXED)
   bad = ctx.run_cases('traces', IMPORTS, check, [t[0] for t in traces], shard=60, timeout=600)
   ctx.log("traces done")
   for i in bad[:5]:
